@@ -288,6 +288,11 @@ def check_provider(ctx, rep, f):
             K = _candidate_count(ctx, f, node.expr)
             atoms = set(ma.get(p, frozenset())) | {a[:4] for a in fx.guard_atoms(p)}
             bounds = [a for a in atoms if a[0] == 'lencmp' and (a[1] in universes or a[1] in alias)]
+            if K is None and isinstance(node.expr, ast.Call) and isinstance(node.expr.func, ast.Name) and node.expr.func.id in f.nested:
+                # the candidates come from a nested generator function: how many there are (an unbounded counter inside it?) is not
+                # read off the loop header -- the rule cannot claim that they run out (benign C08-w/r3)
+                rep.undecided(RULE + '.provider', f, node.stmt, 'the candidates come from the nested function {}: whether they can run out is not decided'.format(node.expr.func.id))
+                continue
             if K is None or not bounds:
                 rep.violates(RULE + '.provider', f, node.stmt, 'when all candidates are taken the provider falls off its loop and returns None as the "fresh" name (no dominating bound on the size of the universe)')
                 continue
